@@ -742,7 +742,16 @@ pub fn run(cx: &mut Cx) {
                     match *entry {
                         "pattern" => {
                             let p = lossy(&input);
-                            let names = names_for(&mut aux, &p, &sd.name);
+                            let mut names = names_for(&mut aux, &p, &sd.name);
+                            if mini {
+                                // Miri interprets about 10^4 times slower: an alternation with
+                                // hundreds of expansions gets a handful of names
+                                let ex = if opat::braces_nested(&p) { opat::count_expansions(&p, 4096) } else { 1 };
+                                // (measured: 2 x 10^7 native instructions - 36 expansions of 300
+                                // characters against 8 names - take nine minutes under Miri)
+                                let work = ex.max(1) * p.len().max(1);
+                                names.truncate((6_000 / work).clamp(1, 16));
+                            }
                             let mut ok = false;
                             measure(ev, entry, len, || ok = drive_pattern(&p, &names, do_match));
                             ev.count(if ok { "outcome/pattern/ok" } else { "outcome/pattern/err" });
